@@ -42,7 +42,13 @@ def generate(rng, seed, index, tier):
             kw["rho"] = float(rng.choice([1.0, 2.5]))
             kw["iteration_limit"] = 300
         kw = gen.quiet_params(kw)
-        return gen.base_world(seed, ID, index, spec, x0, y0, kw, case={"mode": "live", "resolve": bool(rng.random() < 0.3)})
+        obs, clock = None, None
+        if rng.random() < 0.15:
+            obs = {"level": "CRITICAL", "callbacks": ["reenter"]}  # an observer using the solver's single-step API meanwhile
+        if rng.random() < 0.15:
+            kw["time_limit"] = float(rng.choice([0.5, 2.0, 6.0]))
+            clock = {"t0": gen.T0, "steps": [], "tail": float(rng.choice([0.05, 0.11, 0.3]))}
+        return gen.base_world(seed, ID, index, spec, x0, y0, kw, obs=obs, clock=clock, case={"mode": "live", "resolve": bool(rng.random() < 0.3)})
     n = int(rng.integers(1, 41))
     fac = float(rng.choice([1.0, 0.5, 1e-3, 7.0, 1e6]))
     ops = []
